@@ -4,6 +4,16 @@ import json, os, sys
 HERE = os.path.dirname(os.path.dirname(os.path.abspath(__file__)))
 
 CHECKS = {
+ 'C01': dict(
+   technique='partial evaluation of the emitters per opcode row + typed-template semantic descriptors (bit-slice abstract domain, affine rotate counts, guard/trap chains)',
+   text='For all 66 integer numeric encodings, both formatting modes (thorough: also symbol prefixing and the non-builtin header '
+        'configuration): the emitted statement, parsed against the current w2c2_base.h with macros expanded, has the operator, operand '
+        'order, signed/unsigned bit-slice interpretation, shift mask, rotate counts and div/rem guard-to-trap structure of the '
+        'specification row, the right stack effect and a declared result slot. Decides the per-instruction translation for all operand '
+        'values; exhaustive over the finite dispatch table.',
+   note='Trusted: clang typing and macro expansion, C integer semantics of the host compiler. Not decided: non-builtin clz/ctz/popcnt '
+        'fallback arithmetic; composition over nestings (C03 decides the inductive steps).',
+   ref='DESIGN.md 4/C01'),
  'C07': dict(
    technique='partial evaluation of the emitter + exact predicate abstraction over bit fields; AST format/type rules',
    text='Decides statically, for all 2^32/2^64 immediates, that the translator\'s float classification tree equals the '
